@@ -690,6 +690,47 @@ func init() {
 		w.Line("def tracingNewNilOnError : Bool := %s", Bool(okPat))
 		w.Line("")
 
+		// ---- Retry: what the closure returned by RetryPolicy.Wrap can return (ServerPool.handle panics with
+		// "should not reach here" on any error that is not ErrShortCircuited or a serverPoolError)
+		rw, err := r.Func("pkg/resilience/retry.go", "RetryPolicy", "Wrap")
+		if err != nil {
+			return err
+		}
+		var rets, errSrc []string
+		ast.Inspect(rw, func(n ast.Node) bool {
+			fl, ok := n.(*ast.FuncLit)
+			if !ok {
+				return true
+			}
+			ast.Inspect(fl.Body, func(m ast.Node) bool {
+				switch x := m.(type) {
+				case *ast.ReturnStmt:
+					var rs []string
+					for _, e := range x.Results {
+						rs = append(rs, r.Src(e))
+					}
+					rets = append(rets, strings.Join(rs, ", "))
+				case *ast.AssignStmt:
+					for i, l := range x.Lhs {
+						if id, ok := l.(*ast.Ident); ok && id.Name == "err" {
+							if len(x.Rhs) == len(x.Lhs) {
+								errSrc = append(errSrc, r.Src(x.Rhs[i]))
+							} else {
+								errSrc = append(errSrc, r.Src(x.Rhs[0]))
+							}
+						}
+					}
+				}
+				return true
+			})
+			return false
+		})
+		w.Line("/-- `RetryPolicy.Wrap`: the results of every `return` of the returned closure, and every expression")
+		w.Line("assigned (or `:=`-bound, shadowing included) to a variable named `err` in it -/")
+		w.Line("def retryWrapReturns : List String := %s", StrList(rets))
+		w.Line("def retryWrapErrSources : List String := %s", StrList(errSrc))
+		w.Line("")
+
 		// ---- MQTTProxy
 		const mq = "pkg/object/mqttproxy/broker.go"
 		fd, err = r.Func(mq, "", "getPipelineMap")
